@@ -9,7 +9,7 @@ from . import explore
 
 
 def run(pid, tier, plan, oracle_name, monitors_name=None, assumptions=(), extra_cov=None,
-        replay=None, conformance=None):
+        replay=None, conformance=None, extra_violations=()):
     rep = framework.Report(pid, tier, "model_checking")
     rep.assumptions = list(assumptions) + [
         "modelled kernel (vf.sim.shims) bound to the real primitives by vf.selftest "
@@ -57,6 +57,8 @@ def run(pid, tier, plan, oracle_name, monitors_name=None, assumptions=(), extra_
     finally:
         pool.close()
     for v in total.violations:
+        rep.add_violation(v)
+    for v in extra_violations:
         rep.add_violation(v)
     rep.internal = total.internal
     nontrivial = total.executions      # every prefix is a distinct choice list by construction
